@@ -6,9 +6,10 @@
    The full statements are FALSE for the unchanged code (witnesses below, found by the scheduler on
    the real code and replayed on the model).  The partial theorems hold for every number of
    threads, all programs and all schedules whose steps pass `guard`: operations get (hit, miss,
-   missing row, first use of the class), create, expire of a held instance, forgetting a result;
-   no cull triggered; and not the unlocked write of created() while a get of the same id is
-   between its miss under the lock and its put (or has put already). *)
+   missing row, first use of the class), create, expire of a held instance, cull (triggered
+   through the counters inside get and created), forgetting a result; and not the unlocked write
+   of created() while an entry for the id exists or is in flight (a get of the same id between its
+   miss under the lock and its put).  The two expireAll are outside the proved operation set. *)
 From Coq Require Import List ZArith Bool Arith String.
 From Gen Require Import CacheConc.
 From Model Require Import CacheConc CacheConcSpec.
@@ -108,6 +109,17 @@ Example C09_nonvacuous_expire_create :
              (repeat 0 30 ++ repeat 2 8 ++ repeat 1 12 ++ repeat 2 11 ++ repeat 1 56) with
   | Some s => all_finished_b s = true /\ negb (two_objects s) = true /\ negb (bad_exception s) = true /\
               Nat.ltb 0 (s_epoch s 1%Z) = true
+  | None => False
+  end.
+Proof. vm_compute. repeat split; reflexivity. Qed.
+
+(* culls: cullFrequency 0, three gets by the set-up thread (the second triggers a cull), then a get
+   and a create that both run into a cull, interleaved *)
+Example C09_nonvacuous_cull :
+  match grun (init 0 2 [1%Z; 2%Z; 3%Z] [[Get 1%Z; Get 2%Z; Get 3%Z]; [Get 1%Z]; [Create]])
+             (repeat 0 101 ++ repeat 1 12 ++ repeat 2 10 ++ repeat 1 28) with
+  | Some s => all_finished_b s = true /\ negb (two_objects s) = true /\ negb (bad_exception s) = true /\
+              negb (lost_object s) = true /\ Nat.ltb 0 (List.length (s_weak s)) = true
   | None => False
   end.
 Proof. vm_compute. repeat split; reflexivity. Qed.
